@@ -130,6 +130,7 @@ class RunScenario:
         self.argmap_files = {}  # target -> {name: {cmd: [args]}}
         dir_files = {}         # commands directory -> {cmd: filename or None}; may be shared by targets
         dir_decoys = {}        # commands directory -> [file names that define no command]
+        dir_symlinks = {}      # commands directory -> {cmd: is the file a symbolic link}
         for t in self.targets:
             p = t["path"]
             lay = {"custom_dir": None, "defs": {}, "files": {}}
@@ -140,6 +141,7 @@ class RunScenario:
             files = dir_files.setdefault(dkey, {})
             decoys = dir_decoys.setdefault(dkey, [])
             lay["decoys"] = decoys
+            lay["symlinks"] = dir_symlinks.setdefault(dkey, {})
             for c in self.all_commands:
                 if c not in files:
                     if rng.below(100) < undefined_pct:
@@ -151,6 +153,9 @@ class RunScenario:
                         # merge or a rename, and prefix-sharing names; none of them defines `c`
                         decoys.append(c + rng.pick([".sh.disabled", ".sh.orig", ".py.rej", "2.sh", "_old.sh", ".bak.sh", "-ci"]))
                 lay["files"][c] = files[c]
+                if files[c] is not None and c not in dir_symlinks.setdefault(dkey, {}):
+                    # a command file may be a symbolic link to a script shared between targets
+                    dir_symlinks[dkey][c] = rng.chance(1, 6)
                 if custom_dirs and rng.chance(1, 6 if lay["custom_dir"] == "tools/shared" else 10):
                     if rng.chance(1, 3):
                         lay["defs"][c] = ""            # definition without a path: discovered by stem
@@ -230,7 +235,7 @@ class RunScenario:
                 fn = lay["files"].get(c)
                 exe = None
                 if fn is not None:
-                    exe = repo.install(p, fn, at=cdir)
+                    exe = repo.install(p, fn, at=cdir, symlink=bool(lay.get("symlinks", {}).get(c)))
                     # install() appends nothing: the file name already carries the extension
                 if c in lay["defs"] and lay["defs"][c]:
                     d = os.path.join(repo.dir, lay["defs"][c])
